@@ -645,6 +645,9 @@ impl InstrFormat for InstrFormat07 {
     }
 
     fn write_instr(&self, f: &mut BinWriter, emitter: &dyn Emitter, instr: &RawInstr) -> WriteResult {
+        if instr.opcode == 0xFFFF {
+            return Err(emitter.as_sized().emit(error!("opcode 65535 is reserved for the end-of-script marker")));
+        }
         f.write_u16(instr.opcode)?;
         f.write_u16(llir::fit_instr_field(emitter, "size", self.instr_size(instr))?)?;
         f.write_i16(llir::fit_instr_field(emitter, "time", instr.time)?)?;
